@@ -11,7 +11,7 @@ OTHERWISE = None
 
 
 class Case:
-    def __init__(self, name, when=OTHERWISE, returns=None, raises=None, ensures=(), returns_pred=None, any_outcome=False):
+    def __init__(self, name, when=OTHERWISE, returns=None, raises=None, ensures=(), returns_pred=None, any_outcome=False, ensures_return=()):
         self.name = name
         self.when = when            # clause over the PRE state (None = otherwise)
         self.returns = returns      # spec text: result == <returns>  (None: any value) -- normal return
@@ -19,10 +19,12 @@ class Case:
         self.returns_pred = returns_pred
         self.ensures = list(ensures)
         self.any_outcome = any_outcome   # the case allows a normal return as well as any exception
+        self.ensures_return = list(ensures_return)   # clauses that apply to normal returns only
 
 
-def case(name, when=OTHERWISE, returns=None, raises=None, ensures=(), returns_pred=None, any_outcome=False):
-    return Case(name, when, returns, raises, ensures, returns_pred, any_outcome)
+def case(name, when=OTHERWISE, returns=None, raises=None, ensures=(), returns_pred=None, any_outcome=False,
+         ensures_return=()):
+    return Case(name, when, returns, raises, ensures, returns_pred, any_outcome, ensures_return)
 
 
 class LoopSpec:
